@@ -174,6 +174,9 @@ fn main() {
             if let Some(p) = env("VL_DUMP") {
                 let _ = std::fs::write(p, dump.to_string());
             }
+            // services chat on their standard output; whoever started this one keeps that away from
+            // the channel it talks varlink on
+            println!("vl-svc activated: starting (pid {})", std::process::id());
             let addr = env("VARLINK_ADDRESS").unwrap_or_else(|| args.get(2).cloned().unwrap_or_default());
             let idle: u64 = env("VL_IDLE").and_then(|s| s.parse().ok()).unwrap_or(3);
             let (svc, _p) = vl_tsvc::t_service_with(true);
